@@ -15,8 +15,12 @@ for id in C03 C04 C05 C06 C07 C08 C11 C14 C19 C20 C18 C14T; do
 	# second arrangement: reversed order in one process (state carried between runs must not matter)
 	ridx=$(python3 -c "print(','.join(str(i*7+3) for i in reversed(range($n))))")
 	c=$($bin $id --indices $ridx 2>/dev/null | awk '{print $2,$3,$4,$5,$6}' | tac)
+	# third arrangement: rotated by n/3 (a different run is the first one of the process)
+	oidx=$(python3 -c "n=$n; print(','.join(str(((i+n//3)%n)*7+3) for i in range(n)))")
+	d=$($bin $id --indices $oidx 2>/dev/null | awk '{print $2,$3,$4,$5,$6}' | python3 -c "import sys; l=sys.stdin.read().splitlines(); n=len(l); k=n-n//3; print('\n'.join(l[k:]+l[:k]))")
+	if [ "$id" != C06 ] && [ "$a" != "$d" ]; then echo "ORDER-DEPENDENT $id: rotated order gives different fingerprints"; diff <(echo "$a") <(echo "$d") | head -5; fail=1; fi
 	if [ "$a" != "$b" ]; then echo "NONDETERMINISTIC $id: two fresh processes disagree"; diff <(echo "$a") <(echo "$b") | head -5; fail=1
 	elif [ "$id" != C06 ] && [ "$a" != "$c" ]; then echo "ORDER-DEPENDENT $id: reversed order gives different fingerprints"; diff <(echo "$a") <(echo "$c") | head -5; fail=1
-	else echo "deterministic: $id ($n plans x 3 executions)"; fi
+	else echo "deterministic: $id ($n plans x 4 executions)"; fi
 done
 exit $fail
